@@ -60,6 +60,9 @@ instance : LawfulBEq Val where
 
 theorem beq_iff (a b : Val) : (a == b) = true ↔ a = b := beq_iff_eq
 
+/-- decidable equality through the model's own `Val.beq` (for `decide` in the examples) -/
+instance : DecidableEq Val := fun a b => decidable_of_iff _ (beq_iff a b)
+
 /-! ## small list facts -/
 
 theorem mapM_map_some {α β γ : Type} (f : β → Option γ) (g : α → β) (h : α → γ) :
@@ -376,5 +379,752 @@ theorem selfRTVariant (D : Defaults) : ∀ (vs : Variants) (i : Nat) (v : Val) (
         have hne : (m == n) = false := by simp; intro e; subst e; exact hnd.1 hm
         simp only [decSelfVariant, hne]; rw [ih, show i0 + 1 + i = i0 + (i + 1) by omega]; simp
 end
+
+/-! ## (2) `norm` is idempotent -/
+
+theorem normEntry_idem (f : Val → Val) (hf : ∀ v, f (f v) = f v) (e : Val) :
+    (match (match e with | .tuple [.atom k, v] => Val.tuple [.atom k, f v] | e => e) with
+      | .tuple [.atom k, v] => Val.tuple [.atom k, f v] | e => e)
+    = (match e with | .tuple [.atom k, v] => Val.tuple [.atom k, f v] | e => e) := by
+  by_cases h : ∃ k v, e = .tuple [.atom k, v]
+  · obtain ⟨k, v, rfl⟩ := h; simp [hf]
+  · have : (match (generalizing := false) e with
+        | .tuple [.atom k, v] => Val.tuple [.atom k, f v] | e => e) = e := by
+      split
+      · exact absurd ⟨_, _, rfl⟩ h
+      · rfl
+    rw [this, this]
+
+mutual
+theorem norm_idem (D : Defaults) : ∀ (t : Ty) (v : Val), norm D t (norm D t v) = norm D t v
+  | .atom _, v => by cases v <;> simp [norm]
+  | .unit, v => by cases v <;> simp [norm]
+  | .opt t, v => by cases v <;> simp [norm, norm_idem D t]
+  | .seq t, v => by cases v <;> simp [norm, norm_idem D t]
+  | .map _ t, v => by
+      cases v with
+      | seq es =>
+        simp only [norm, List.map_map]
+        congr 1
+        apply List.map_congr_left
+        intro e _
+        exact normEntry_idem _ (norm_idem D t) e
+      | _ => simp [norm]
+  | .tuple ts, v => by cases v <;> simp [norm, normTys_idem D ts]
+  | .newtype _ t, v => by simp only [norm]; exact norm_idem D t v
+  | .struct _ fs, v => by cases v <;> simp [norm, normFields_idem D fs]
+  | .enum _ vs, v => by cases v <;> simp [norm, normVariant_idem D vs]
+theorem normTys_idem (D : Defaults) : ∀ (ts : Tys) (vs : List Val),
+    normTys D ts (normTys D ts vs) = normTys D ts vs
+  | .nil, vs => by simp [normTys]
+  | .cons t r, [] => by simp [normTys]
+  | .cons t r, v :: vs => by simp [normTys, norm_idem D t v, normTys_idem D r vs]
+theorem normFields_idem (D : Defaults) : ∀ (fs : Fields) (vs : List Val),
+    normFields D fs (normFields D fs vs) = normFields D fs vs
+  | .nil, vs => by simp [normFields]
+  | .cons a t r, [] => by simp [normFields]
+  | .cons a t r, v :: vs => by
+      simp only [normFields, normFields_idem D r vs]
+      congr 1
+      cases hs : a.skip
+      · cases hh : skipHit D a t v
+        · simp only [Bool.false_eq_true, if_false, norm_idem D t v]
+          split <;> rfl
+        · simp [hh]
+      · simp
+theorem normVariant_idem (D : Defaults) : ∀ (vs : Variants) (i : Nat) (v : Val),
+    normVariant D vs i (normVariant D vs i v) = normVariant D vs i v
+  | .nil, _, _ => by simp [normVariant]
+  | .unit _ _, 0, _ => by simp [normVariant]
+  | .newtype _ t _, 0, v => by simp [normVariant, norm_idem D t v]
+  | .unit _ r, i + 1, v => by simp only [normVariant]; exact normVariant_idem D r i v
+  | .newtype _ _ r, i + 1, v => by simp only [normVariant]; exact normVariant_idem D r i v
+end
+
+/-! ## (3) the defaults of `skip` fields are well typed ⇒ `norm` preserves typing -/
+
+mutual
+/-- for every `#[serde(skip)]` field (of type `t'`) that `norm` resets, `dfl D t'` is a value of
+    type `t'` -/
+def skipFit (D : Defaults) : Ty → Bool
+  | .opt t => skipFit D t
+  | .seq t => skipFit D t
+  | .map _ t => skipFit D t
+  | .tuple ts => skipFitTys D ts
+  | .newtype _ t => skipFit D t
+  | .struct _ fs => skipFitFields D fs
+  | .enum _ vs => skipFitVariants D vs
+  | _ => true
+def skipFitTys (D : Defaults) : Tys → Bool
+  | .nil => true
+  | .cons t r => skipFit D t && skipFitTys D r
+def skipFitFields (D : Defaults) : Fields → Bool
+  | .nil => true
+  | .cons a t r => (if a.skip then fits t (dfl D t) else skipFit D t) && skipFitFields D r
+def skipFitVariants (D : Defaults) : Variants → Bool
+  | .nil => true
+  | .unit _ r => skipFitVariants D r
+  | .newtype _ t r => skipFit D t && skipFitVariants D r
+end
+
+mutual
+theorem fits_norm (D : Defaults) : ∀ (t : Ty) (v : Val), skipFit D t = true → fits t v = true →
+    fits t (norm D t v) = true
+  | .atom _, v, _, h => by cases v <;> simp [fits] at h; simp [norm, fits]
+  | .unit, v, _, h => by cases v <;> simp [fits] at h; simp [norm, fits]
+  | .opt t, v, hs, h => by
+      cases v with
+      | none => simp [norm, fits]
+      | some v =>
+        simp only [skipFit] at hs; simp only [fits] at h
+        simp only [norm, fits]; exact fits_norm D t v hs h
+      | _ => simp [fits] at h
+  | .seq t, v, hs, h => by
+      cases v with
+      | seq vs =>
+        simp only [skipFit] at hs; simp only [fits, List.all_eq_true] at h
+        simp only [norm, fits, List.all_eq_true, List.mem_map]
+        rintro _ ⟨w, hw, rfl⟩; exact fits_norm D t w hs (h w hw)
+      | _ => simp [fits] at h
+  | .map _ t, v, hs, h => by
+      cases v with
+      | seq es =>
+        simp only [skipFit] at hs; simp only [fits, List.all_eq_true] at h
+        simp only [norm, fits, List.all_eq_true, List.mem_map]
+        rintro _ ⟨e, he, rfl⟩
+        obtain ⟨k, w, rfl, hf⟩ := entry_shape _ e (h e he)
+        simp only []
+        exact fits_norm D t w hs hf
+      | _ => simp [fits] at h
+  | .tuple ts, v, hs, h => by
+      cases v with
+      | tuple vs =>
+        simp only [skipFit] at hs; simp only [fits] at h
+        simp only [norm, fits]; exact fitsTys_norm D ts vs hs h
+      | _ => simp [fits] at h
+  | .newtype _ t, v, hs, h => by
+      simp only [skipFit] at hs; simp only [fits] at h
+      simp only [norm, fits]; exact fits_norm D t v hs h
+  | .struct _ fs, v, hs, h => by
+      cases v with
+      | tuple vs =>
+        simp only [skipFit] at hs; simp only [fits] at h
+        simp only [norm, fits]; exact fitsFields_norm D fs vs hs h
+      | _ => simp [fits] at h
+  | .enum _ vs, v, hs, h => by
+      cases v with
+      | variant i v =>
+        simp only [skipFit] at hs; simp only [fits] at h
+        simp only [norm, fits]; exact fitsVariant_norm D vs i v hs h
+      | _ => simp [fits] at h
+theorem fitsTys_norm (D : Defaults) : ∀ (ts : Tys) (vs : List Val), skipFitTys D ts = true →
+    fitsTys ts vs = true → fitsTys ts (normTys D ts vs) = true
+  | .nil, vs, _, h => by cases vs <;> simp [fitsTys] at h; simp [normTys, fitsTys]
+  | .cons t r, [], _, h => by simp [fitsTys] at h
+  | .cons t r, v :: vs, hs, h => by
+      simp only [skipFitTys, Bool.and_eq_true] at hs
+      simp only [fitsTys, Bool.and_eq_true] at h
+      simp only [normTys, fitsTys, Bool.and_eq_true]
+      exact ⟨fits_norm D t v hs.1 h.1, fitsTys_norm D r vs hs.2 h.2⟩
+theorem fitsFields_norm (D : Defaults) : ∀ (fs : Fields) (vs : List Val),
+    skipFitFields D fs = true → fitsFields fs vs = true →
+    fitsFields fs (normFields D fs vs) = true
+  | .nil, vs, _, h => by cases vs <;> simp [fitsFields] at h; simp [normFields, fitsFields]
+  | .cons a t r, [], _, h => by simp [fitsFields] at h
+  | .cons a t r, v :: vs, hs, h => by
+      simp only [skipFitFields, Bool.and_eq_true] at hs
+      simp only [fitsFields, Bool.and_eq_true] at h
+      simp only [normFields, fitsFields, Bool.and_eq_true]
+      refine ⟨?_, fitsFields_norm D r vs hs.2 h.2⟩
+      cases hsk : a.skip
+      · simp only [hsk, Bool.false_eq_true, if_false] at hs ⊢
+        split
+        · exact h.1
+        · exact fits_norm D t v hs.1 h.1
+      · simp only [hsk, if_true] at hs ⊢; exact hs.1
+theorem fitsVariant_norm (D : Defaults) : ∀ (vs : Variants) (i : Nat) (v : Val),
+    skipFitVariants D vs = true → fitsVariant vs i v = true →
+    fitsVariant vs i (normVariant D vs i v) = true
+  | .nil, _, _, _, h => by simp [fitsVariant] at h
+  | .unit _ _, 0, _, _, h => by simpa [normVariant] using h
+  | .newtype _ t _, 0, v, hs, h => by
+      simp only [skipFitVariants, Bool.and_eq_true] at hs
+      simp only [fitsVariant] at h
+      simp only [normVariant, fitsVariant]; exact fits_norm D t v hs.1 h
+  | .unit _ r, i + 1, v, hs, h => by
+      simp only [skipFitVariants] at hs; simp only [fitsVariant] at h
+      simp only [normVariant, fitsVariant]; exact fitsVariant_norm D r i v hs h
+  | .newtype _ _ r, i + 1, v, hs, h => by
+      simp only [skipFitVariants, Bool.and_eq_true] at hs; simp only [fitsVariant] at h
+      simp only [normVariant, fitsVariant]; exact fitsVariant_norm D r i v hs.2 h
+end
+
+/-! ## (4 ⇐) positional round trip of a value without a hit field -/
+
+theorem decMany_flatten {α : Type} (f : List Tok → Option (Val × List Tok)) (g : α → List Tok)
+    (h : α → Val) : ∀ (vs : List α) (rest : List Tok),
+      (∀ v ∈ vs, ∀ rest, f (g v ++ rest) = some (h v, rest)) →
+      decMany f vs.length ((vs.map g).flatten ++ rest) = some (vs.map h, rest)
+  | [], rest, _ => by simp [decMany]
+  | v :: vs, rest, hv => by
+      have h1 := hv v (by simp) ((vs.map g).flatten ++ rest)
+      have h2 := decMany_flatten f g h vs rest (fun w hw => hv w (by simp [hw]))
+      simp only [List.length_cons, List.map_cons, List.flatten_cons, List.append_assoc, decMany,
+        h1, h2]
+
+mutual
+theorem posRT (D : Defaults) : ∀ (t : Ty) (v : Val) (rest : List Tok), fits t v = true →
+    noHit D t v = true → decSeq D t (encSeq D t v ++ rest) = some (norm D t v, rest)
+  | .atom _, v, rest, h, _ => by
+      cases v <;> simp [fits] at h; simp [encSeq, decSeq, norm]
+  | .unit, v, rest, h, _ => by
+      cases v <;> simp [fits] at h; simp [encSeq, decSeq, norm]
+  | .opt t, v, rest, h, hn => by
+      cases v with
+      | none => simp [encSeq, decSeq, norm]
+      | some v =>
+        simp only [fits] at h; simp only [noHit] at hn
+        simp only [encSeq, norm, List.cons_append, decSeq, posRT D t v rest h hn]; rfl
+      | _ => simp [fits] at h
+  | .seq t, v, rest, h, hn => by
+      cases v with
+      | seq vs =>
+        simp only [fits, List.all_eq_true] at h; simp only [noHit, List.all_eq_true] at hn
+        simp only [encSeq, norm, List.cons_append, decSeq]
+        rw [decMany_flatten (decSeq D t) (encSeq D t) (norm D t) vs rest
+          (fun v hv rest => posRT D t v rest (h v hv) (hn v hv))]; rfl
+      | _ => simp [fits] at h
+  | .map _ t, v, rest, h, hn => by
+      cases v with
+      | seq es =>
+        simp only [fits, List.all_eq_true] at h; simp only [noHit, List.all_eq_true] at hn
+        simp only [encSeq, norm, List.cons_append, decSeq]
+        rw [decMany_flatten _ _ (fun e => match e with
+          | .tuple [.atom k, v] => Val.tuple [.atom k, norm D t v]
+          | e => e) es rest ?_]; rfl
+        intro e he rest
+        obtain ⟨k, v, rfl, hf⟩ := entry_shape _ e (h e he)
+        have hn' := hn _ he
+        simp only [] at hn'
+        simp [posRT D t v rest hf hn']
+      | _ => simp [fits] at h
+  | .tuple ts, v, rest, h, hn => by
+      cases v with
+      | tuple vs =>
+        simp only [fits] at h; simp only [noHit] at hn
+        simp only [encSeq, norm, decSeq, posRTTys D ts vs rest h hn]; rfl
+      | _ => simp [fits] at h
+  | .newtype _ t, v, rest, h, hn => by
+      simp only [fits] at h; simp only [noHit] at hn
+      simp only [encSeq, norm, decSeq]; exact posRT D t v rest h hn
+  | .struct _ fs, v, rest, h, hn => by
+      cases v with
+      | tuple vs =>
+        simp only [fits] at h; simp only [noHit] at hn
+        simp only [encSeq, norm, decSeq, posRTFields D fs vs rest h hn]; rfl
+      | _ => simp [fits] at h
+  | .enum _ vs, v, rest, h, hn => by
+      cases v with
+      | variant i v =>
+        simp only [fits] at h; simp only [noHit] at hn
+        simp only [encSeq, norm, List.cons_append, decSeq, posRTVariant D vs i v rest h hn]; rfl
+      | _ => simp [fits] at h
+theorem posRTTys (D : Defaults) : ∀ (ts : Tys) (vs : List Val) (rest : List Tok),
+    fitsTys ts vs = true → noHitTys D ts vs = true →
+    decSeqTys D ts (encSeqTys D ts vs ++ rest) = some (normTys D ts vs, rest)
+  | .nil, vs, rest, h, _ => by
+      cases vs <;> simp [fitsTys] at h; simp [encSeqTys, decSeqTys, normTys]
+  | .cons t r, [], _, h, _ => by simp [fitsTys] at h
+  | .cons t r, v :: vs, rest, h, hn => by
+      simp only [fitsTys, Bool.and_eq_true] at h; simp only [noHitTys, Bool.and_eq_true] at hn
+      simp only [encSeqTys, normTys, decSeqTys, List.append_assoc,
+        posRT D t v _ h.1 hn.1, posRTTys D r vs rest h.2 hn.2]
+theorem posRTFields (D : Defaults) : ∀ (fs : Fields) (vs : List Val) (rest : List Tok),
+    fitsFields fs vs = true → noHitFields D fs vs = true →
+    decSeqFields D fs (encSeqFields D fs vs ++ rest) = some (normFields D fs vs, rest)
+  | .nil, vs, rest, h, _ => by
+      cases vs <;> simp [fitsFields] at h; simp [encSeqFields, decSeqFields, normFields]
+  | .cons a t r, [], _, h, _ => by simp [fitsFields] at h
+  | .cons a t r, v :: vs, rest, h, hn => by
+      simp only [fitsFields, Bool.and_eq_true] at h
+      simp only [noHitFields, Bool.and_eq_true] at hn
+      have ih := posRTFields D r vs rest h.2 hn.2
+      cases hs : a.skip
+      · have hn1 : skipHit D a t v = false ∧ noHit D t v = true := by simpa [hs] using hn.1
+        simp only [encSeqFields, normFields, decSeqFields, hs, hn1.1, Bool.or_self,
+          Bool.false_eq_true, if_false, List.append_assoc, posRT D t v _ h.1 hn1.2, ih]
+      · simp only [encSeqFields, normFields, decSeqFields, hs, Bool.true_or, if_true,
+          List.nil_append, ih]
+theorem posRTVariant (D : Defaults) : ∀ (vs : Variants) (i : Nat) (v : Val) (rest : List Tok),
+    fitsVariant vs i v = true → noHitVariant D vs i v = true →
+    decSeqVariant D vs i (encSeqVariant D vs i v ++ rest) = some (normVariant D vs i v, rest)
+  | .nil, _, _, _, h, _ => by simp [fitsVariant] at h
+  | .unit _ _, 0, v, rest, h, _ => by
+      simp only [fitsVariant] at h
+      have : v = .unit := by simpa using h
+      simp [encSeqVariant, decSeqVariant, normVariant, this]
+  | .newtype _ t _, 0, v, rest, h, hn => by
+      simp only [fitsVariant] at h; simp only [noHitVariant] at hn
+      simp only [encSeqVariant, decSeqVariant, normVariant]; exact posRT D t v rest h hn
+  | .unit _ r, i + 1, v, rest, h, hn => by
+      simp only [fitsVariant] at h; simp only [noHitVariant] at hn
+      simp only [encSeqVariant, decSeqVariant, normVariant]; exact posRTVariant D r i v rest h hn
+  | .newtype _ _ r, i + 1, v, rest, h, hn => by
+      simp only [fitsVariant] at h; simp only [noHitVariant] at hn
+      simp only [encSeqVariant, decSeqVariant, normVariant]; exact posRTVariant D r i v rest h hn
+end
+
+/-! ## (4 ⇒) what the positional reader accepts is the FULL encoding -/
+
+mutual
+/-- positional encoding that writes every non-`skip` field, whatever its `skip_serializing_if`
+    predicate says — the only stream the derived positional `Deserialize` reads back -/
+def encFull : Ty → Val → List Tok
+  | .atom _, .atom s => [.atom s]
+  | .unit, _ => []
+  | .opt _, .none => [.tag false]
+  | .opt t, .some v => .tag true :: encFull t v
+  | .seq t, .seq vs => .len vs.length :: (vs.map (encFull t)).flatten
+  | .map _ t, .seq es => .len es.length :: (es.map (fun e => match e with
+      | .tuple [.atom k, v] => Tok.atom k :: encFull t v
+      | _ => [])).flatten
+  | .tuple ts, .tuple vs => encFullTys ts vs
+  | .newtype _ t, v => encFull t v
+  | .struct _ fs, .tuple vs => encFullFields fs vs
+  | .enum _ vs, .variant i v => .var i :: encFullVariant vs i v
+  | _, _ => []
+def encFullTys : Tys → List Val → List Tok
+  | .cons t r, v :: vs => encFull t v ++ encFullTys r vs
+  | _, _ => []
+def encFullFields : Fields → List Val → List Tok
+  | .cons a t r, v :: vs => (if a.skip then [] else encFull t v) ++ encFullFields r vs
+  | _, _ => []
+def encFullVariant : Variants → Nat → Val → List Tok
+  | .nil, _, _ => []
+  | .unit _ _, 0, _ => []
+  | .newtype _ t _, 0, v => encFull t v
+  | .unit _ r, i + 1, v => encFullVariant r i v
+  | .newtype _ _ r, i + 1, v => encFullVariant r i v
+end
+
+theorem decMany_inj (f : List Tok → Option (Val × List Tok)) (g : Val → List Tok)
+    (hf : ∀ toks w rest, f toks = some (w, rest) → toks = g w ++ rest) :
+    ∀ (n : Nat) (toks : List Tok) (ws : List Val) (rest : List Tok),
+      decMany f n toks = some (ws, rest) → ws.length = n ∧ toks = (ws.map g).flatten ++ rest
+  | 0, toks, ws, rest, h => by
+      simp only [decMany, Option.some.injEq, Prod.mk.injEq] at h
+      obtain ⟨rfl, rfl⟩ := h; simp
+  | n + 1, toks, ws, rest, h => by
+      simp only [decMany] at h
+      cases h1 : f toks with
+      | none => simp [h1] at h
+      | some p =>
+        obtain ⟨w, r1⟩ := p
+        simp only [h1] at h
+        cases h2 : decMany f n r1 with
+        | none => simp [h2] at h
+        | some q =>
+          obtain ⟨ws', r2⟩ := q
+          simp only [h2, Option.some.injEq, Prod.mk.injEq] at h
+          obtain ⟨rfl, rfl⟩ := h
+          have e1 := hf toks w r1 h1
+          have e2 := decMany_inj f g hf n r1 ws' r2 h2
+          refine ⟨by simp [e2.1], ?_⟩
+          rw [e1, e2.2]; simp
+
+theorem map_pair_some {α β : Type} (o : Option (α × List Tok)) (F : α → β) (w : β)
+    (rest : List Tok) (h : o.map (fun p => (F p.1, p.2)) = some (w, rest)) :
+    ∃ x, o = some (x, rest) ∧ F x = w := by
+  cases o with
+  | none => simp at h
+  | some p =>
+    obtain ⟨x, r⟩ := p
+    simp only [Option.map_some, Option.some.injEq, Prod.mk.injEq] at h
+    exact ⟨x, by simp [h.2], h.1⟩
+
+mutual
+theorem decSeq_inj (D : Defaults) : ∀ (t : Ty) (toks : List Tok) (w : Val) (rest : List Tok),
+    decSeq D t toks = some (w, rest) → toks = encFull t w ++ rest
+  | .atom _, toks, w, rest, h => by
+      cases toks with
+      | nil => simp [decSeq] at h
+      | cons tk r =>
+        cases tk <;> simp [decSeq] at h
+        obtain ⟨rfl, rfl⟩ := h; simp [encFull]
+  | .unit, toks, w, rest, h => by
+      simp only [decSeq, Option.some.injEq, Prod.mk.injEq] at h
+      obtain ⟨rfl, rfl⟩ := h; simp [encFull]
+  | .opt t, toks, w, rest, h => by
+      cases toks with
+      | nil => simp [decSeq] at h
+      | cons tk r =>
+        cases tk with
+        | tag b =>
+          cases b
+          · simp only [decSeq, Option.some.injEq, Prod.mk.injEq] at h
+            obtain ⟨rfl, rfl⟩ := h; simp [encFull]
+          · simp only [decSeq] at h
+            obtain ⟨x, hx, rfl⟩ := map_pair_some _ _ _ _ h
+            simp [encFull, decSeq_inj D t r x rest hx]
+        | _ => simp [decSeq] at h
+  | .seq t, toks, w, rest, h => by
+      cases toks with
+      | nil => simp [decSeq] at h
+      | cons tk r =>
+        cases tk with
+        | len n =>
+          simp only [decSeq] at h
+          obtain ⟨ws, hx, rfl⟩ := map_pair_some _ _ _ _ h
+          have := decMany_inj (decSeq D t) (encFull t) (decSeq_inj D t) n r ws rest hx
+          simp [encFull, this.1, this.2]
+        | _ => simp [decSeq] at h
+  | .map _ t, toks, w, rest, h => by
+      cases toks with
+      | nil => simp [decSeq] at h
+      | cons tk r =>
+        cases tk with
+        | len n =>
+          simp only [decSeq] at h
+          obtain ⟨ws, hx, rfl⟩ := map_pair_some _ _ _ _ h
+          have := decMany_inj _ (fun e => match e with
+            | .tuple [.atom k, v] => Tok.atom k :: encFull t v
+            | _ => []) ?_ n r ws rest hx
+          · simp [encFull, this.1, this.2]
+          · intro toks w rest hf
+            split at hf
+            · rename_i k r1
+              obtain ⟨x, hx, rfl⟩ :=
+                map_pair_some _ (fun x => Val.tuple [Val.atom k, x]) _ _ hf
+              simp [decSeq_inj D t _ x rest hx]
+            · simp at hf
+        | _ => simp [decSeq] at h
+  | .tuple ts, toks, w, rest, h => by
+      simp only [decSeq] at h
+      obtain ⟨ws, hx, rfl⟩ := map_pair_some _ _ _ _ h
+      simp only [encFull]; exact decSeqTys_inj D ts toks ws rest hx
+  | .newtype _ t, toks, w, rest, h => by
+      simp only [decSeq] at h; simp only [encFull]; exact decSeq_inj D t toks w rest h
+  | .struct _ fs, toks, w, rest, h => by
+      simp only [decSeq] at h
+      obtain ⟨ws, hx, rfl⟩ := map_pair_some _ _ _ _ h
+      simp only [encFull]; exact decSeqFields_inj D fs toks ws rest hx
+  | .enum _ vs, toks, w, rest, h => by
+      cases toks with
+      | nil => simp [decSeq] at h
+      | cons tk r =>
+        cases tk with
+        | var i =>
+          simp only [decSeq] at h
+          obtain ⟨x, hx, rfl⟩ := map_pair_some _ _ _ _ h
+          simp [encFull, decSeqVariant_inj D vs i r x rest hx]
+        | _ => simp [decSeq] at h
+theorem decSeqTys_inj (D : Defaults) : ∀ (ts : Tys) (toks : List Tok) (ws : List Val)
+    (rest : List Tok), decSeqTys D ts toks = some (ws, rest) → toks = encFullTys ts ws ++ rest
+  | .nil, toks, ws, rest, h => by
+      simp only [decSeqTys, Option.some.injEq, Prod.mk.injEq] at h
+      obtain ⟨rfl, rfl⟩ := h; simp [encFullTys]
+  | .cons t r, toks, ws, rest, h => by
+      simp only [decSeqTys] at h
+      cases h1 : decSeq D t toks with
+      | none => simp [h1] at h
+      | some p =>
+        obtain ⟨w, r1⟩ := p
+        simp only [h1] at h
+        cases h2 : decSeqTys D r r1 with
+        | none => simp [h2] at h
+        | some q =>
+          obtain ⟨ws', r2⟩ := q
+          simp only [h2, Option.some.injEq, Prod.mk.injEq] at h
+          obtain ⟨rfl, rfl⟩ := h
+          rw [decSeq_inj D t toks w r1 h1, decSeqTys_inj D r r1 ws' r2 h2]
+          simp [encFullTys]
+theorem decSeqFields_inj (D : Defaults) : ∀ (fs : Fields) (toks : List Tok) (ws : List Val)
+    (rest : List Tok), decSeqFields D fs toks = some (ws, rest) →
+      toks = encFullFields fs ws ++ rest
+  | .nil, toks, ws, rest, h => by
+      simp only [decSeqFields, Option.some.injEq, Prod.mk.injEq] at h
+      obtain ⟨rfl, rfl⟩ := h; simp [encFullFields]
+  | .cons a t r, toks, ws, rest, h => by
+      simp only [decSeqFields] at h
+      cases hs : a.skip
+      · simp only [hs, Bool.false_eq_true, if_false] at h
+        cases h1 : decSeq D t toks with
+        | none => simp [h1] at h
+        | some p =>
+          obtain ⟨w, r1⟩ := p
+          simp only [h1] at h
+          cases h2 : decSeqFields D r r1 with
+          | none => simp [h2] at h
+          | some q =>
+            obtain ⟨ws', r2⟩ := q
+            simp only [h2, Option.some.injEq, Prod.mk.injEq] at h
+            obtain ⟨rfl, rfl⟩ := h
+            rw [decSeq_inj D t toks w r1 h1, decSeqFields_inj D r r1 ws' r2 h2]
+            simp [encFullFields, hs]
+      · simp only [hs, if_true] at h
+        cases h2 : decSeqFields D r toks with
+        | none => simp [h2] at h
+        | some q =>
+          obtain ⟨ws', r2⟩ := q
+          simp only [h2, Option.some.injEq, Prod.mk.injEq] at h
+          obtain ⟨rfl, rfl⟩ := h
+          rw [decSeqFields_inj D r toks ws' r2 h2]
+          simp [encFullFields, hs]
+theorem decSeqVariant_inj (D : Defaults) : ∀ (vs : Variants) (i : Nat) (toks : List Tok)
+    (w : Val) (rest : List Tok), decSeqVariant D vs i toks = some (w, rest) →
+      toks = encFullVariant vs i w ++ rest
+  | .nil, _, _, _, _, h => by simp [decSeqVariant] at h
+  | .unit _ _, 0, toks, w, rest, h => by
+      simp only [decSeqVariant, Option.some.injEq, Prod.mk.injEq] at h
+      obtain ⟨rfl, rfl⟩ := h; simp [encFullVariant]
+  | .newtype _ t _, 0, toks, w, rest, h => by
+      simp only [decSeqVariant] at h; simp only [encFullVariant]
+      exact decSeq_inj D t toks w rest h
+  | .unit _ r, i + 1, toks, w, rest, h => by
+      simp only [decSeqVariant] at h; simp only [encFullVariant]
+      exact decSeqVariant_inj D r i toks w rest h
+  | .newtype _ _ r, i + 1, toks, w, rest, h => by
+      simp only [decSeqVariant] at h; simp only [encFullVariant]
+      exact decSeqVariant_inj D r i toks w rest h
+end
+
+/-! ## (4 ⇒) the written stream is never longer than the full one, and as long only without a hit -/
+
+mutual
+theorem posMin_le : ∀ (t : Ty) (w : Val), fits t w = true → posMin t ≤ (encFull t w).length
+  | .atom _, w, h => by cases w <;> simp [fits] at h; simp [posMin, encFull]
+  | .unit, _, _ => by simp [posMin]
+  | .opt _, w, h => by cases w <;> simp [fits] at h <;> simp [posMin, encFull]
+  | .seq _, w, h => by cases w <;> simp [fits] at h <;> simp [posMin, encFull]
+  | .map _ _, w, h => by cases w <;> simp [fits] at h <;> simp [posMin, encFull]
+  | .tuple ts, w, h => by
+      cases w with
+      | tuple ws => simp only [fits] at h; simp only [posMin, encFull]; exact posMinTys_le ts ws h
+      | _ => simp [fits] at h
+  | .newtype _ t, w, h => by
+      simp only [fits] at h; simp only [posMin, encFull]; exact posMin_le t w h
+  | .struct _ fs, w, h => by
+      cases w with
+      | tuple ws =>
+        simp only [fits] at h; simp only [posMin, encFull]; exact posMinFields_le fs ws h
+      | _ => simp [fits] at h
+  | .enum _ _, w, h => by cases w <;> simp [fits] at h; simp [posMin, encFull]
+theorem posMinTys_le : ∀ (ts : Tys) (ws : List Val), fitsTys ts ws = true →
+    posMinTys ts ≤ (encFullTys ts ws).length
+  | .nil, _, _ => by simp [posMinTys]
+  | .cons _ _, [], h => by simp [fitsTys] at h
+  | .cons t r, w :: ws, h => by
+      simp only [fitsTys, Bool.and_eq_true] at h
+      have h1 := posMin_le t w h.1
+      have h2 := posMinTys_le r ws h.2
+      simp only [posMinTys, encFullTys, List.length_append]; omega
+theorem posMinFields_le : ∀ (fs : Fields) (ws : List Val), fitsFields fs ws = true →
+    posMinFields fs ≤ (encFullFields fs ws).length
+  | .nil, _, _ => by simp [posMinFields]
+  | .cons _ _ _, [], h => by simp [fitsFields] at h
+  | .cons a t r, w :: ws, h => by
+      simp only [fitsFields, Bool.and_eq_true] at h
+      have h1 := posMin_le t w h.1
+      have h2 := posMinFields_le r ws h.2
+      simp only [posMinFields, encFullFields, List.length_append]
+      cases hs : a.skip
+      · simp only [Bool.false_or, Bool.false_eq_true, if_false]
+        split <;> omega
+      · simp only [Bool.true_or, if_true, List.length_nil]; omega
+end
+
+theorem flatten_len {α : Type} (g h : α → List Tok) (P : α → Prop) : ∀ (vs : List α),
+    (∀ v ∈ vs, (g v).length ≤ (h v).length ∧ ((g v).length = (h v).length → P v)) →
+    ((vs.map g).flatten).length ≤ ((vs.map h).flatten).length ∧
+    (((vs.map g).flatten).length = ((vs.map h).flatten).length → ∀ v ∈ vs, P v)
+  | [], _ => by simp
+  | v :: vs, hv => by
+      have h1 := hv v (by simp)
+      have h2 := flatten_len g h P vs (fun w hw => hv w (by simp [hw]))
+      simp only [List.map_cons, List.flatten_cons, List.length_append, List.mem_cons,
+        forall_eq_or_imp]
+      refine ⟨by omega, fun e => ⟨h1.2 (by omega), h2.2 (by omega)⟩⟩
+
+mutual
+theorem len_le (D : Defaults) : ∀ (t : Ty) (v : Val), fits t v = true → posWF t = true →
+    (encSeq D t v).length ≤ (encFull t (norm D t v)).length ∧
+    ((encSeq D t v).length = (encFull t (norm D t v)).length → noHit D t v = true)
+  | .atom _, v, h, _ => by
+      cases v <;> simp [fits] at h; simp [encSeq, norm, encFull, noHit]
+  | .unit, v, h, _ => by
+      cases v <;> simp [fits] at h; simp [encSeq, encFull, noHit]
+  | .opt t, v, h, hp => by
+      cases v with
+      | none => simp [encSeq, norm, encFull, noHit]
+      | some v =>
+        simp only [fits] at h; simp only [posWF] at hp
+        have ih := len_le D t v h hp
+        simp only [encSeq, norm, encFull, noHit, List.length_cons]
+        exact ⟨by omega, fun e => ih.2 (by omega)⟩
+      | _ => simp [fits] at h
+  | .seq t, v, h, hp => by
+      cases v with
+      | seq vs =>
+        simp only [fits, List.all_eq_true] at h; simp only [posWF] at hp
+        have ih := flatten_len (encSeq D t) (fun v => encFull t (norm D t v))
+          (fun v => noHit D t v = true) vs (fun v hv => len_le D t v (h v hv) hp)
+        simp only [encSeq, norm, encFull, noHit, List.length_cons, List.map_map,
+          List.all_eq_true]
+        exact ⟨Nat.succ_le_succ ih.1, fun e => ih.2 (Nat.succ.inj e)⟩
+      | _ => simp [fits] at h
+  | .map _ t, v, h, hp => by
+      cases v with
+      | seq es =>
+        simp only [fits, List.all_eq_true] at h; simp only [posWF] at hp
+        have ih := flatten_len
+          (fun e => match e with
+            | .tuple [.atom k, v] => Tok.atom k :: encSeq D t v
+            | _ => [])
+          (fun e => (fun e => match e with
+            | .tuple [.atom k, v] => Tok.atom k :: encFull t v
+            | _ => []) ((fun e => match e with
+            | .tuple [.atom k, v] => Val.tuple [.atom k, norm D t v]
+            | e => e) e))
+          (fun e => (match e with
+            | .tuple [.atom _, v] => noHit D t v
+            | _ => true) = true) es ?_
+        · simp only [encSeq, norm, encFull, noHit, List.length_cons, List.map_map,
+            List.all_eq_true]
+          exact ⟨Nat.succ_le_succ ih.1, fun e => ih.2 (Nat.succ.inj e)⟩
+        · intro e he
+          obtain ⟨k, v, rfl, hf⟩ := entry_shape _ e (h e he)
+          have := len_le D t v hf hp
+          simp only [List.length_cons]
+          exact ⟨by omega, fun e => this.2 (by omega)⟩
+      | _ => simp [fits] at h
+  | .tuple ts, v, h, hp => by
+      cases v with
+      | tuple vs =>
+        simp only [fits] at h; simp only [posWF] at hp
+        simp only [encSeq, norm, encFull, noHit]; exact lenTys_le D ts vs h hp
+      | _ => simp [fits] at h
+  | .newtype _ t, v, h, hp => by
+      simp only [fits] at h; simp only [posWF] at hp
+      simp only [encSeq, norm, encFull, noHit]; exact len_le D t v h hp
+  | .struct _ fs, v, h, hp => by
+      cases v with
+      | tuple vs =>
+        simp only [fits] at h; simp only [posWF] at hp
+        simp only [encSeq, norm, encFull, noHit]; exact lenFields_le D fs vs h hp
+      | _ => simp [fits] at h
+  | .enum _ vs, v, h, hp => by
+      cases v with
+      | variant i v =>
+        simp only [fits] at h; simp only [posWF] at hp
+        have ih := lenVariant_le D vs i v h hp
+        simp only [encSeq, norm, encFull, noHit, List.length_cons]
+        exact ⟨by omega, fun e => ih.2 (by omega)⟩
+      | _ => simp [fits] at h
+theorem lenTys_le (D : Defaults) : ∀ (ts : Tys) (vs : List Val), fitsTys ts vs = true →
+    posWFTys ts = true →
+    (encSeqTys D ts vs).length ≤ (encFullTys ts (normTys D ts vs)).length ∧
+    ((encSeqTys D ts vs).length = (encFullTys ts (normTys D ts vs)).length →
+      noHitTys D ts vs = true)
+  | .nil, vs, h, _ => by
+      cases vs <;> simp [fitsTys] at h; simp [encSeqTys, encFullTys, noHitTys]
+  | .cons _ _, [], h, _ => by simp [fitsTys] at h
+  | .cons t r, v :: vs, h, hp => by
+      simp only [fitsTys, Bool.and_eq_true] at h; simp only [posWFTys, Bool.and_eq_true] at hp
+      have i1 := len_le D t v h.1 hp.1
+      have i2 := lenTys_le D r vs h.2 hp.2
+      simp only [encSeqTys, normTys, encFullTys, noHitTys, List.length_append, Bool.and_eq_true]
+      exact ⟨by omega, fun e => ⟨i1.2 (by omega), i2.2 (by omega)⟩⟩
+theorem lenFields_le (D : Defaults) : ∀ (fs : Fields) (vs : List Val), fitsFields fs vs = true →
+    posWFFields fs = true →
+    (encSeqFields D fs vs).length ≤ (encFullFields fs (normFields D fs vs)).length ∧
+    ((encSeqFields D fs vs).length = (encFullFields fs (normFields D fs vs)).length →
+      noHitFields D fs vs = true)
+  | .nil, vs, h, _ => by
+      cases vs <;> simp [fitsFields] at h
+      simp [encSeqFields, encFullFields, noHitFields]
+  | .cons _ _ _, [], h, _ => by simp [fitsFields] at h
+  | .cons a t r, v :: vs, h, hp => by
+      simp only [fitsFields, Bool.and_eq_true] at h
+      simp only [posWFFields, Bool.and_eq_true] at hp
+      have i1 := len_le D t v h.1 hp.1.2
+      have i2 := lenFields_le D r vs h.2 hp.2
+      have pm := posMin_le t v h.1
+      simp only [encSeqFields, normFields, encFullFields, noHitFields, List.length_append,
+        Bool.and_eq_true]
+      cases hs : a.skip
+      · cases hh : skipHit D a t v
+        · simp only [Bool.or_self, Bool.false_eq_true, if_false, Bool.false_or, Bool.not_false,
+            Bool.true_and]
+          exact ⟨by omega, fun e => ⟨i1.2 (by omega), i2.2 (by omega)⟩⟩
+        · -- a hit field: nothing written, but the reader expects ≥ posMin t > 0 tokens
+          have hne : a.skipIf ≠ .never := by
+            intro e; simp [skipHit, e] at hh
+          have hpos : 0 < posMin t := by
+            have := hp.1.1; simp only [Bool.or_eq_true, beq_iff_eq, decide_eq_true_eq] at this
+            rcases this with e | e
+            · exact absurd e hne
+            · exact e
+          simp only [Bool.or_true, if_true, Bool.false_eq_true, if_false, List.length_nil]
+          exact ⟨by omega, fun e => by omega⟩
+      · simp only [Bool.true_or, if_true, List.length_nil]
+        exact ⟨by omega, fun e => ⟨trivial, i2.2 (by omega)⟩⟩
+theorem lenVariant_le (D : Defaults) : ∀ (vs : Variants) (i : Nat) (v : Val),
+    fitsVariant vs i v = true → posWFVariants vs = true →
+    (encSeqVariant D vs i v).length ≤ (encFullVariant vs i (normVariant D vs i v)).length ∧
+    ((encSeqVariant D vs i v).length = (encFullVariant vs i (normVariant D vs i v)).length →
+      noHitVariant D vs i v = true)
+  | .nil, _, _, h, _ => by simp [fitsVariant] at h
+  | .unit _ _, 0, _, _, _ => by simp [encSeqVariant, encFullVariant, noHitVariant]
+  | .newtype _ t _, 0, v, h, hp => by
+      simp only [fitsVariant] at h; simp only [posWFVariants, Bool.and_eq_true] at hp
+      simp only [encSeqVariant, normVariant, encFullVariant, noHitVariant]
+      exact len_le D t v h hp.1
+  | .unit _ r, i + 1, v, h, hp => by
+      simp only [fitsVariant] at h; simp only [posWFVariants] at hp
+      simp only [encSeqVariant, normVariant, encFullVariant, noHitVariant]
+      exact lenVariant_le D r i v h hp
+  | .newtype _ _ r, i + 1, v, h, hp => by
+      simp only [fitsVariant] at h; simp only [posWFVariants, Bool.and_eq_true] at hp
+      simp only [encSeqVariant, normVariant, encFullVariant, noHitVariant]
+      exact lenVariant_le D r i v h hp.2
+end
+
+/-- (4 ⇒) a positional stream that decodes to `norm v` exactly is one without a hit field -/
+theorem noHit_of_posRT (D : Defaults) (t : Ty) (v : Val) (hp : posWF t = true)
+    (h : fits t v = true) (hrt : decSeq D t (encSeq D t v) = some (norm D t v, [])) :
+    noHit D t v = true := by
+  have e := decSeq_inj D t _ _ _ hrt
+  rw [List.append_nil] at e
+  exact (len_le D t v h hp).2 (by rw [← e])
+
+/-! ## a concrete `Defaults` for the examples -/
+
+mutual
+/-- a canonical well-typed inhabitant (every enum of the crate has ≥ 1 variant) -/
+def canon : Ty → Val
+  | .atom _ => .atom "0"
+  | .unit => .unit
+  | .opt _ => .none
+  | .seq _ => .seq []
+  | .map _ _ => .seq []
+  | .tuple ts => .tuple (canonTys ts)
+  | .newtype _ t => canon t
+  | .struct _ fs => .tuple (canonFields fs)
+  | .enum _ vs => canonVariant vs
+def canonTys : Tys → List Val
+  | .nil => []
+  | .cons t r => canon t :: canonTys r
+def canonFields : Fields → List Val
+  | .nil => []
+  | .cons _ t r => canon t :: canonFields r
+def canonVariant : Variants → Val
+  | .nil => .variant 0 .unit
+  | .unit _ _ => .variant 0 .unit
+  | .newtype _ t _ => .variant 0 (canon t)
+end
+
+/-- `Default::default()` = the canonical inhabitant; every `default = "path"` function returns
+    the leaf `"fn"` -/
+def canonD : Defaults := ⟨canon, fun _ => .atom "fn"⟩
 
 end Altrios.Proofs.SerdeL
